@@ -50,7 +50,10 @@ func (x *Exec) contractForMethod(c *ssa.CallCommon) *Contract {
 }
 
 func (x *Exec) ruleFor(fn *ssa.Function) *PkgRule {
-	name := fn.String()
+	return x.ruleForName(fn.String())
+}
+
+func (x *Exec) ruleForName(name string) *PkgRule {
 	var best *PkgRule
 	for i := range x.db.PkgRules {
 		r := &x.db.PkgRules[i]
@@ -126,6 +129,13 @@ func (x *Exec) doCallVals(st *State, c *ssa.CallCommon, fnv Val, args []Val, con
 				names = append(names, n)
 			}
 			x.applyContract(st, con, name, names, append([]Val{fnv}, args...), sig, cont, ins)
+			return
+		}
+		// package rule by the interface's package (e.g. prometheus.Observer)
+		full := "(" + types.TypeString(c.Value.Type(), func(p *types.Package) string { return p.Path() }) + ")." + c.Method.Name()
+		if r := x.ruleForName(full); r != nil && r.NoEffect {
+			x.trusted["rule "+r.Prefix+" (no effect on modelled state)"]++
+			cont(st, x.freshResults(st, sig))
 			return
 		}
 		x.unknownCall(st, name, sig, args, cont)
@@ -946,7 +956,7 @@ func (x *Exec) guardOfLoc(st *State, l *Loc) *GuardInfo {
 			}
 		}
 	}
-	return &GuardInfo{Lock: lockT, Desc: typeShort(l.Parent.Elem) + "." + stt.Field(l.Field).Name(), Tags: g.Tags}
+	return &GuardInfo{Lock: "(* 3 " + lockT + ")", Desc: typeShort(l.Parent.Elem) + "." + stt.Field(l.Field).Name(), Tags: g.Tags}
 }
 
 func typeShort(t types.Type) string {
